@@ -404,6 +404,11 @@ def r5_push_advance(c, facts):
 
 def run(c, facts):
     import c16
+    import c15
+    sc = ['oal_model::span::utf8_to_char_index', 'oal_model::span::CharSpan::from']
+    c16.run_units(c, facts, rule_prefix='C11.U', scope=sc, must=sc, floors=False)
+    R7 = c.rule('C11.R7', 'FRESH-TREE: spans handed out by the server belong to a tree of the current text: a failed reload drops the previous modules (shared with C15.R3)')
+    c.shared(R7, c15.r3_reset_all, 'C15.R3', facts)
     R6 = c.rule('C11.R6', 'SAME-TEXT: a span handed to the editor is measured in the text of its own module (shared with C16.R5)')
     c.shared(R6, c16.r5_same_text, 'C16.R5', facts)
     c.run(r5_push_advance, facts)
